@@ -20,6 +20,7 @@ func init() {
 			"(R4, polling loop) in watchPoll every iteration that reaches the scan takes the scan lock, clears accelerate before scanning and sets it (to accelerationAllowed) only after the scan succeeded, under the same lock hold; a failed scan releases the lock and strobes the poll signal; the timer case of the select (ticker built from the polling interval in seconds) proceeds to the scan; " +
 			"(R5, every modification notified) «modified» is the negated Equal of the fresh snapshot with the previous one, the previous snapshot is replaced by the fresh one on every successful iteration and kept on failure, and the strobe is suppressed only by a flag that can be true in the first iteration only (its true edge is guarded by the loop's «first» φ, which is initially true and false on every back edge); " +
 			"(R6) the only event paths the loop ignores are those whose base name starts with the temporary-name prefix. " +
+			"(R7) endpoint.Poll takes a poll signal only in its single blocking wait and then returns — it never drains a pending signal without reporting it; " +
 			"Not decided: time (that the ticker fires), Snapshot.Equal, the scan itself.",
 		Assumptions: []string{"time.Ticker fires every interval", "Snapshot.Equal is exact"},
 		Run:         runC42,
@@ -44,6 +45,7 @@ func scanLockOps() eng.LockOps {
 }
 
 func runC42(c *eng.Ctx) {
+	c42PollConsumesNothingSilently(c)
 	tr := c.MustFunc("R1", localEPPkg, "endpoint.Transition")
 	wp := c.MustFunc("R4", localEPPkg, "endpoint.watchPoll")
 	if tr == nil || wp == nil {
